@@ -26,6 +26,7 @@ PtsCx == { [D |-> 1, x |-> << <<C1(1, 1), C1(2, -1)>> >>],
            [D |-> 2, x |-> << <<C2(3, 1, 1, 2), C2(1, -2, -1, 1)>> >>] }
 PtsCxP2 == { [D |-> 2, x |-> << <<C2(3, 1, 1, 2), C2(1, -2, -1, 1)>>, <<C2(2, -1, 0, 1), C2(-1, 2, 2, 0)>> >>] }
 SeedsCx == { <<C2(2, 1, -1, 1), C2(-1, 2, 3, -1)>> }
+PtsCx1 == { [D |-> 1, x |-> << <<C1(1, 1), C1(2, -1)>> >>] }      \* complex data of the degree of the (real-valued) recording run
 \* real and complex data of the same degree alternating on one graph
 PtsMix == { [D |-> 2, x |-> << <<S2(3, 1), S2(5, -1)>> >>], [D |-> 2, x |-> << <<C2(3, 1, 1, 2), C2(1, -2, -1, 1)>> >>],
             [D |-> 1, x |-> << <<C1(1, 1), C1(2, -1)>> >>] }       \* (D = 1: the degree of the recording run)
